@@ -46,8 +46,9 @@ def SPEC(tier):
 
 
 META = dict(
-    technique='program generation by template enumeration: every vec/mat/qua instantiation compiled in each configuration and checked against an explicit layout contract model; tagged-value round trips',
+    technique='program generation by template enumeration: every vec/mat/qua instantiation and every named typedef compiled in each configuration and checked against an explicit layout contract model; tagged-value round trips',
     text='The instantiation space is finite and enumerated completely per configuration (about 650 instantiations packed-only, 1300 with aligned qualifiers), so within a configuration the static facts are decided, not sampled; '
-         'quick covers 4 configurations, thorough 17 (every ISA level, SWIZZLE, XYZW_ONLY, SIZE_T_LENGTH, QUAT_DATA_WXYZ, CTOR_INIT, ALIGNED_GENTYPES, DEFAULT_ALIGNED_GENTYPES).',
+         'quick covers 9 configurations, thorough 19 (every ISA level, SWIZZLE, XYZW_ONLY, SIZE_T_LENGTH, QUAT_DATA_WXYZ with and without intrinsics, CTOR_INIT, ALIGNED_GENTYPES, DEFAULT_ALIGNED_GENTYPES with and without MESSAGES, clang CXX98 + intrinsics). '
+         'Per configuration two more targets: every named typedef of glm/fwd.hpp and gtc/type_aligned.hpp (about 1200) must denote the type its name spells, and the default gentypes must be the packed / (DEFAULT_ALIGNED) aligned ones with the sizes of manual 2.10.',
     note='A configuration that no longer compiles is reported as a violation with the compiler log as replay. The contract for aligned types is read from qualifier.hpp/manual.md, not from observed sizes.',
     design='6/C16')
